@@ -9,7 +9,7 @@ Local Open Scope list_scope.
 
 (* ================================================================= A. which fragments are sent *)
 
-(* full statement: the sent document defines exactly the fragments reachable from the operation *)
+(* the sent document defines exactly the fragments reachable from the operation, each once *)
 Definition C02_fragments_exact_full : Prop :=
   forall fuel C Sc frs ins o doc ins',
     op_document fuel C Sc frs ins o = Ok (doc, ins') ->
@@ -17,7 +17,7 @@ Definition C02_fragments_exact_full : Prop :=
     /\ NoDup (doc_fragment_names doc).
 
 (* the closure computed by _get_fragments_names is the least fixed point of "spread from" — any fuel
-   for which it answers (unguarded) *)
+   for which it answers *)
 Theorem C02_closure_exact : forall frs fuel names l,
   frag_names fuel frs names = Some l -> forall n, In n l <-> reach frs names n.
 Proof. exact frag_names_exact. Qed.
@@ -32,21 +32,13 @@ Theorem C02_closure_fuel : forall rk frs names,
 Proof. exact frag_names_fuel_count. Qed.
 Print Assumptions C02_closure_fuel.
 
-(* proved under the boolean guard [covered]: every spread of the operation and of the unpacked fragments
-   is defined in the sent document (a local check of the operation and the unpacked definitions
-   against the list of sent fragments).  Its complement is the finding class C02-dropped-spread.  (That what was recorded is reachable is proved of the traversal:
-   recorded_is_reachable; the closure hypothesis is discharged by C02_closure_fuel.) *)
-Theorem C02_fragments_exact_partial : forall Sc fuel C frs ins o doc ins' mix unp l,
-  op_document fuel C Sc frs ins o = Ok (doc, ins') ->
-  op_sets fuel C Sc frs ins o = Ok (mix, unp) ->
-  frag_names fuel frs (sel_spreads (o_sel o)) = Some l ->
-  covered frs o (doc_fragment_names doc) unp = true ->
-  (forall n, In n (doc_fragment_names doc) <-> reach frs (sel_spreads (o_sel o)) n)
-  /\ NoDup (doc_fragment_names doc).
-Proof. exact fragments_exact_covered. Qed.
-Print Assumptions C02_fragments_exact_partial.
+(* full strength since ab67ead (_get_all_related_fragments = closure of the operation's own selections):
+   no guard *)
+Theorem C02_fragments_exact : C02_fragments_exact_full.
+Proof. exact fragments_exact. Qed.
+Print Assumptions C02_fragments_exact.
 
-(* the generator never records a fragment the operation does not reach (unguarded) *)
+(* auxiliary: the generator never records (as mixin / unpacked) a fragment the operation does not reach *)
 Theorem C02_recorded_is_reachable : forall Sc frs fuel C ins o mix unp l,
   op_sets fuel C Sc frs ins o = Ok (mix, unp) ->
   frag_names fuel frs (sel_spreads (o_sel o)) = Some l ->
@@ -54,36 +46,31 @@ Theorem C02_recorded_is_reachable : forall Sc frs fuel C ins o mix unp l,
 Proof. exact recorded_is_reachable. Qed.
 Print Assumptions C02_recorded_is_reachable.
 
-(* query Q { animal { name ...NF } }  fragment NF on Node { id }  with Animal and Node unrelated
-   interfaces sharing an implementation: the spread is dropped, NF is not sent *)
-Theorem C02_fragments_exact_refuted : ~ C02_fragments_exact_full.
-Proof.
-  intro H. destruct W_drop_doc as (doc & ins' & Hd & Hn).
-  destruct (H _ _ _ _ _ _ _ _ Hd) as [Hiff _].
-  pose proof (proj2 (Hiff "NF") W_drop_reach) as Hin. rewrite Hn in Hin. exact Hin.
-Qed.
-Print Assumptions C02_fragments_exact_refuted.
-
-Example C02_exact_guard_satisfiable :
-  exists mix unp l, op_sets 50 W_cfg W_schema W_mixin_frs [] W_mixin_op = Ok (mix, unp)
-                  /\ frag_names 50 W_mixin_frs (sel_spreads (o_sel W_mixin_op)) = Some l
-                  /\ covered W_mixin_frs W_mixin_op ["F"] unp = true /\ mix = ["F"] /\ l = ["F"].
-Proof. eexists. eexists. eexists. split; [vm_compute; reflexivity|]. repeat split; reflexivity. Qed.
+(* regression (was C02_fragments_exact_refuted before ab67ead): query Q { animal { name ...NF } }
+   fragment NF on Node { id }, Animal and Node unrelated interfaces sharing an implementation —
+   the spread is dropped by _resolve_selection_set, its definition is sent all the same *)
+Example C02_regression_dropped_spread :
+  exists doc ins', op_document 50 W_cfg W_schema W_drop_frs [] W_drop_op = Ok (doc, ins')
+                   /\ doc_fragment_names doc = ["NF"].
+Proof. exact W_drop_doc. Qed.
 
 (* ================================================================= B. the two documented rewrites *)
 
-(* full statement: erasing the automatic __typename fields from the sent document gives the authored
-   operation and fragment definitions with every @mixin removed, and nothing else changed *)
+(* erasing the automatic __typename fields from the sent document gives the authored operation and
+   fragment definitions with every @mixin removed, and nothing else changed; the hypothesis
+   [mixin_located] is part of "valid operation": @mixin stands only at its declared locations *)
 Definition C02_rewrites_full : Prop :=
   forall fuel C Sc frs ins o doc ins',
     op_document fuel C Sc frs ins o = Ok (doc, ins') ->
     authored_op o = true -> forallb authored_fd frs = true ->
+    mixin_located (XOp o) = true -> forallb (fun f => mixin_located (XFrag f)) frs = true ->
     exists defs, Forall (fun f => In f frs) defs /\
       map erase_ddef doc = map strip_all_ddef (XOp o :: map XFrag defs).
 
-(* unguarded: erasing the inserted fields gives the authored definitions with @mixin filtered from the
-   directive lists of FIELDS — no argument, value, alias, other directive, variable definition,
-   default value, type condition or name is touched, whatever was inserted *)
+(* without any hypothesis on where @mixin stands: erasing the inserted fields gives the authored
+   definitions with @mixin filtered from the directive lists of fields and of fragment definitions —
+   no argument, value, alias, other directive, variable definition, default value, type condition or
+   name is touched, whatever was inserted *)
 Theorem C02_only_documented_rewrites : forall fuel C Sc frs ins o doc ins',
   op_document fuel C Sc frs ins o = Ok (doc, ins') ->
   authored_op o = true -> forallb authored_fd frs = true ->
@@ -97,26 +84,21 @@ Theorem C02_strip_identity : forall s, no_field_mixin s = true -> strip_sel s = 
 Proof. exact strip_sel_id. Qed.
 Print Assumptions C02_strip_identity.
 
-(* guard: @mixin stands on fields only (not on fragment definitions, spreads, inline fragments) *)
-Theorem C02_rewrites_partial : forall fuel C Sc frs ins o doc ins',
-  op_document fuel C Sc frs ins o = Ok (doc, ins') ->
-  authored_op o = true -> forallb authored_fd frs = true ->
-  mixin_only_on_fields (XOp o) = true -> forallb (fun f => mixin_only_on_fields (XFrag f)) frs = true ->
-  exists defs, Forall (fun f => In f frs) defs /\
-    map erase_ddef doc = map strip_all_ddef (XOp o :: map XFrag defs).
-Proof. exact documented_rewrites_partial. Qed.
-Print Assumptions C02_rewrites_partial.
+(* full strength since b510d04 *)
+Theorem C02_rewrites : C02_rewrites_full.
+Proof. exact documented_rewrites. Qed.
+Print Assumptions C02_rewrites.
 
-(* fragment F on A @mixin(from: ".m", import: "M") { x } : the directive is still in the sent text *)
-Theorem C02_rewrites_refuted : exists fuel C Sc frs ins o doc ins' f,
-  op_document fuel C Sc frs ins o = Ok (doc, ins') /\ authored_op o = true /\
-  forallb authored_fd frs = true /\ In (XFrag f) doc /\
-  existsb (fun d => String.eqb (d_name d) "mixin") (fd_dirs f) = true.
-Proof.
-  destruct W_mixin_doc as (doc & ins' & f & Hd & Hi & Hm).
-  exists 50, W_cfg, W_schema, W_mixin_frs, [], W_mixin_op, doc, ins', f. repeat split; assumption || reflexivity.
-Qed.
-Print Assumptions C02_rewrites_refuted.
+(* regression (was C02_rewrites_refuted before b510d04): fragment F on A @mixin(...) { x } *)
+Example C02_regression_mixin_on_definition : exists doc ins',
+  op_document 50 W_cfg W_schema W_mixin_frs [] W_mixin_op = Ok (doc, ins') /\
+  doc_fragment_names doc = ["F"] /\ existsb has_mixin doc = false.
+Proof. exact W_mixin_doc. Qed.
+
+Example C02_rewrites_hypotheses_satisfiable :
+  authored_op W_mixin_op = true /\ forallb authored_fd W_mixin_frs = true /\
+  mixin_located (XOp W_mixin_op) = true /\ forallb (fun f => mixin_located (XFrag f)) W_mixin_frs = true.
+Proof. repeat split. Qed.
 
 (* operationName names the single operation of the sent document *)
 Theorem C02_operation_name_is_single : forall fuel C Sc frs ins o doc ins',
@@ -129,89 +111,123 @@ Print Assumptions C02_operation_name_is_single.
 (* ================================================================= C. the text path *)
 Definition L (s : string) : chars := s2l s.
 Definition client_embed (lines : list chars) : ev := embed client_prefix client_suffix true 4 lines.
+Definition client_matches (lines : list chars) : nat := matches client_prefix client_suffix lines.
 
-(* full statement: the generated method's literal evaluates to the operation text, up to the leading
-   newline and the uniform indentation of the rewriter *)
+(* the text the literal stands for, up to the rewriter's layout: the lines as they are, or a line feed,
+   every non-blank line behind 12 blanks, 12 blanks *)
+Definition text_of (k : nat) (lines : list chars) (v : chars) : Prop :=
+  v = joined lines \/ v = embedded k lines.
+
+(* full statement: for every non-empty list of lines over all bytes (no line feed inside a line: they
+   come from str.split on it) the generated method's literal evaluates to the operation text *)
 Definition C02_embed_full : Prop := forall lines,
-  2 <= List.length lines -> Forall (fun l => has NL l = false) lines ->
-  client_embed lines = EvOk (embedded 12 lines) client_suffix.
+  lines <> [] -> Forall (fun l => has NL l = false) lines ->
+  exists v, client_embed lines = EvOk v client_suffix /\ text_of 12 lines v.
 
-(* proved for every list of lines over the safe alphabet (printable, no single quote, no backslash,
-   no three consecutive double quotes):
-   any statement  <a> = <b> <literals> <suf>  whose prefix holds no single quote *)
+(* proved for every statement  <a> = <b> <literals> <suf>  whose prefix holds no quote, every list of
+   lines over ALL bytes, whenever the rewriter's regex matches at most once on the statement *)
 Theorem C02_embed_roundtrip_partial : forall a b suf paren off lines,
-  good_prefix a b -> suf = [] \/ suf = [")"%char] ->
-  2 <= List.length lines -> Forall (fun l => safe_line l = true) lines ->
-  embed (a ++ EQc :: b) suf paren off lines
-  = EvOk (embedded (leading_ws (a ++ EQc :: b) + off) lines) suf.
+  good_prefix a b -> suf = [] \/ suf = [")"%char] -> lines <> [] ->
+  Forall (fun l => has NL l = false) lines ->
+  (matches (a ++ EQc :: b) suf lines = 0 ->
+   embed (a ++ EQc :: b) suf paren off lines = EvOk (joined lines) suf) /\
+  (matches (a ++ EQc :: b) suf lines = 1 ->
+   embed (a ++ EQc :: b) suf paren off lines
+   = EvOk (embedded (leading_ws (a ++ EQc :: b) + off) lines) suf).
 Proof. exact embed_roundtrip. Qed.
 Print Assumptions C02_embed_roundtrip_partial.
 
-(* the generated client method:  8 spaces, query = gql( ... ), offset 4 *)
-Theorem C02_embed_client_partial : forall lines,
-  2 <= List.length lines -> Forall (fun l => safe_line l = true) lines ->
+(* it matches exactly once when no line holds a single quote (backslashes, double quotes, three double
+   quotes, control characters, non-ASCII bytes are all allowed) *)
+Theorem C02_one_match_without_quote : forall a b suf lines,
+  good_prefix a b -> suf = [] \/ suf = [")"%char] -> 2 <= List.length lines ->
+  Forall (fun l => has SQ l = false) lines ->
+  matches (a ++ EQc :: b) suf lines = 1.
+Proof. exact one_match_without_quote. Qed.
+Print Assumptions C02_one_match_without_quote.
+
+Lemma client_good : good_prefix (spaces 8 ++ L "query ") (L " gql(").
+Proof. constructor; reflexivity. Qed.
+
+(* the generated client method (8 blanks, query = gql( ... ), offset 4): unguarded for lines without a
+   single quote ... *)
+Theorem C02_embed_client_without_quote : forall lines,
+  2 <= List.length lines -> Forall (fun l => has NL l = false) lines ->
+  Forall (fun l => has SQ l = false) lines ->
   client_embed lines = EvOk (embedded 12 lines) client_suffix.
 Proof.
-  intros lines H2 Hs.
-  assert (G : good_prefix (spaces 8 ++ L "query ") (L " gql(")) by (constructor; reflexivity).
-  exact (embed_roundtrip (spaces 8 ++ L "query ") (L " gql(") client_suffix true 4 lines
-           G (or_intror eq_refl) H2 Hs).
+  intros lines H2 Hn Hq.
+  assert (Hne : lines <> []) by (destruct lines; [simpl in H2; inversion H2 | discriminate]).
+  destruct (embed_roundtrip (spaces 8 ++ L "query ") (L " gql(") client_suffix true 4 lines
+              client_good (or_intror eq_refl) Hne Hn) as [_ H1].
+  apply H1. exact (one_match_without_quote _ _ _ _ client_good (or_intror eq_refl) H2 Hq).
+Qed.
+Print Assumptions C02_embed_client_without_quote.
+
+(* ... and for all lines under the computable guard "at most one match" *)
+Theorem C02_embed_client_partial : forall lines,
+  lines <> [] -> Forall (fun l => has NL l = false) lines -> client_matches lines <= 1 ->
+  exists v, client_embed lines = EvOk v client_suffix /\ text_of 12 lines v.
+Proof.
+  intros lines Hne Hn Hm.
+  destruct (embed_roundtrip (spaces 8 ++ L "query ") (L " gql(") client_suffix true 4 lines
+              client_good (or_intror eq_refl) Hne Hn) as [H0 H1].
+  unfold client_matches in Hm.
+  change client_prefix with ((spaces 8 ++ L "query ") ++ EQc :: L " gql(") in Hm.
+  destruct (matches ((spaces 8 ++ L "query ") ++ EQc :: L " gql(") client_suffix lines) as [|[|m]] eqn:E.
+  - exists (joined lines). split; [apply H0; reflexivity | left; reflexivity].
+  - exists (embedded 12 lines). split; [apply H1; reflexivity | right; reflexivity].
+  - exfalso. inversion Hm as [|? Hm']. inversion Hm'.
 Qed.
 Print Assumptions C02_embed_client_partial.
 
 (* the ExtractOperations constant  NAME_GQL = ...  at module level, offset 0 *)
-Theorem C02_embed_operations_partial : forall name lines,
-  has EQc name = false -> has SQ name = false -> leading_ws (name ++ L " = ") = 0 ->
-  2 <= List.length lines -> Forall (fun l => safe_line l = true) lines ->
+Theorem C02_embed_operations_without_quote : forall name lines,
+  has EQc name = false -> noq name = true -> leading_ws (name ++ L " = ") = 0 ->
+  2 <= List.length lines -> Forall (fun l => has NL l = false) lines ->
+  Forall (fun l => has SQ l = false) lines ->
   embed (name ++ L " = ") [] false 0 lines = EvOk (embedded 0 lines) [].
 Proof.
-  intros name lines He Hq Hw H2 Hs.
-  pose proof (embed_roundtrip (name ++ [SP]) [SP] [] false 0 lines) as R. cbv zeta in R.
+  intros name lines He Hq Hw H2 Hn Hs.
+  assert (Hne : lines <> []) by (destruct lines; [simpl in H2; inversion H2 | discriminate]).
+  assert (G : good_prefix (name ++ [SP]) [SP]).
+  { constructor; [rewrite has_app, He; reflexivity | unfold noq in *; rewrite forallb_app, Hq; reflexivity
+                  | reflexivity]. }
   assert (E : (name ++ [SP]) ++ EQc :: [SP] = name ++ L " = ") by (rewrite <- app_assoc; reflexivity).
-  rewrite E, Hw in R. apply R; [| left; reflexivity | exact H2 | exact Hs].
-  constructor; [rewrite has_app, He; reflexivity | rewrite has_app, Hq; reflexivity | reflexivity].
+  destruct (embed_roundtrip (name ++ [SP]) [SP] [] false 0 lines G (or_introl eq_refl) Hne Hn) as [_ H1].
+  cbv zeta in H1. rewrite E, Hw in H1. apply H1.
+  pose proof (one_match_without_quote _ _ _ _ G (or_introl eq_refl) H2 Hs) as M. rewrite E in M. exact M.
 Qed.
-Print Assumptions C02_embed_operations_partial.
+Print Assumptions C02_embed_operations_without_quote.
 
 Example C02_embed_hypotheses_satisfiable :
-  let lines := [L "query A($v: Int = 3) {"; L "  echo(s: ""a # b = c"")"; L ""; L "}"] in
-  Forall (fun l => safe_line l = true) lines /\
+  let lines := [L "query A($v: Int = 3) {"; L "  echo(s: ""a \n # b = c\\ """""")"; L ""; L "}"] in
+  Forall (fun l => has NL l = false) lines /\ Forall (fun l => has SQ l = false) lines /\
   client_embed lines = EvOk (embedded 12 lines) client_suffix.
-Proof. split; [repeat constructor | vm_compute; reflexivity]. Qed.
+Proof. split; [repeat constructor | split; [repeat constructor | vm_compute; reflexivity]]. Qed.
 
-(* --- what breaks, on the faithful model --- *)
-(* a single quote inside a string literal: the regex ends the match at the escaped quote, the rest of
-   the line is left behind the triple-quoted literal and is not Python any more *)
-Theorem C02_embed_refuted_quote :
-  exists v rest, client_embed [L "query A {"; L "  echo(s: ""it's"")"; L "}"] = EvOk v rest
-                 /\ rest <> client_suffix.
-Proof. eexists. eexists. split; [vm_compute; reflexivity | vm_compute; discriminate]. Qed.
+(* --- regressions: the witnesses of the former refutations (before 0f971a2) now round-trip --- *)
+(* a single quote inside a string literal (was C02_embed_refuted_quote): one match, covered by the guard *)
+Example C02_regression_quote :
+  let lines := [L "query A {"; L "  echo(s: ""it's"")"; L "}"] in
+  client_matches lines = 1 /\ client_embed lines = EvOk (embedded 12 lines) client_suffix.
+Proof. split; vm_compute; reflexivity. Qed.
 
-(* the GraphQL escape backslash-n: repr doubles the backslash, the rewriter's replace of backslash-n by a
-   line feed eats the n, Python reads backslash-newline as a continuation: the literal is sent as
-   a + indentation + b *)
-Theorem C02_embed_refuted_escape :
-  exists lines v, Forall (fun l => has NL l = false) lines /\
-    client_embed lines = EvOk v client_suffix /\ v <> embedded 12 lines /\
-    v = NL :: s2l "            query A {" ++ NL :: s2l "              echo(s: ""a            b"")"
-           ++ NL :: s2l "            }" ++ NL :: spaces 12.
-Proof.
-  exists [L "query A {"; L "  echo(s: ""a\nb"")"; L "}"]. eexists.
-  split; [repeat constructor|]. split; [vm_compute; reflexivity|]. split; [vm_compute; discriminate | reflexivity].
-Qed.
+(* the GraphQL escape backslash-n (was C02_embed_refuted_escape: sent as a + indentation + b) *)
+Example C02_regression_escape :
+  let lines := [L "query A {"; L "  echo(s: ""a\nb"")"; L "}"] in
+  client_embed lines = EvOk (embedded 12 lines) client_suffix.
+Proof. vm_compute. reflexivity. Qed.
 
-(* a block string: its three double quotes close the Python literal *)
-Theorem C02_embed_refuted_block :
-  exists v rest, client_embed [L "query A {"; L "  echo(s: """"""b"""""")"; L "}"] = EvOk v rest
-                 /\ rest <> client_suffix.
-Proof. eexists. eexists. split; [vm_compute; reflexivity | vm_compute; discriminate]. Qed.
+(* a block string (was C02_embed_refuted_block) *)
+Example C02_regression_block :
+  let lines := [L "query A {"; L "  echo(s: """"""b"""""")"; L "}"] in
+  client_embed lines = EvOk (embedded 12 lines) client_suffix.
+Proof. vm_compute. reflexivity. Qed.
 
-Theorem C02_embed_refuted : ~ C02_embed_full.
-Proof.
-  intro H. specialize (H [L "query A {"; L "  echo(s: ""it's"")"; L "}"]).
-  assert (E : client_embed [L "query A {"; L "  echo(s: ""it's"")"; L "}"]
-              <> EvOk (embedded 12 [L "query A {"; L "  echo(s: ""it's"")"; L "}"]) client_suffix)
-    by (vm_compute; discriminate).
-  apply E, H; [simpl; auto | repeat constructor].
-Qed.
-Print Assumptions C02_embed_refuted.
+(* a statement on which the regex matches twice (outside the guard of the theorem): the model still
+   round-trips; no counterexample to C02_embed_full is known *)
+Example C02_two_matches_still_round_trip :
+  let lines := [L ""; L """'="; L ""; L ""] in
+  client_matches lines = 2 /\ client_embed lines = EvOk (embedded 12 lines) client_suffix.
+Proof. split; vm_compute; reflexivity. Qed.
